@@ -18,6 +18,7 @@ func extractAll() {
 	safely("oneway", onewayFacts)
 	safely("mgr", mgrFacts)
 	safely("gen", genFacts)
+	safely("access", accessFacts)
 }
 
 // ------------------------------------------------------------------ reply loops (C01, C02, C06, C07)
@@ -26,6 +27,7 @@ func extractAll() {
 //
 //	<p>_exhaust   the condition guarding the Incomplete outcome
 //	<p>_preCheck  whether that test is evaluated before the first select
+//	<p>_ctxCause  whether the branch reports incompleteCause(ctx) (the context's error once the context has ended)
 //	<p>_errGuard  the condition under which an arrival is treated as an error
 //	<p>_chanCap   the capacity expression of the reply channel (in the issuing function)
 func loopFacts(prefix, file, loopFn, issueFn string) {
@@ -34,11 +36,15 @@ func loopFacts(prefix, file, loopFn, issueFn string) {
 	if f == nil {
 		defE(prefix+"_exhaust", missing("function "+loopFn+" not found"))
 		defBool(prefix+"_preCheck", false)
+		defBool(prefix+"_ctxCause", false)
 		defE(prefix+"_errGuard", missing("function "+loopFn+" not found"))
 		defE(prefix+"_chanCap", missing("function "+loopFn+" not found"))
 		return
 	}
-	ifs := p.ifsWithBodyMentioning(f, "cause: Incomplete")
+	ifsPlain := p.ifsWithBodyMentioning(f, "cause: Incomplete")
+	ifsCtx := p.ifsWithBodyMentioning(f, "cause: incompleteCause(ctx)")
+	ifs := append(append([]*ast.IfStmt{}, ifsPlain...), ifsCtx...)
+	defBool(prefix+"_ctxCause", len(ifsPlain) == 0 && len(ifsCtx) > 0)
 	loop := firstFor(f)
 	switch {
 	case len(ifs) == 0 || loop == nil:
@@ -171,6 +177,7 @@ func errorsFacts() {
 	}
 	skel("skel_QCEError", p.normalise(p.findFunc("errors.go", "QuorumCallError.Error")))
 	skel("skel_nodeErrorError", p.normalise(p.findFunc("errors.go", "nodeError.Error")))
+	skel("skel_incompleteCause", p.normalise(p.findFunc("errors.go", "incompleteCause")))
 }
 
 // ------------------------------------------------------------------ sorters (C19)
